@@ -216,6 +216,14 @@ static void PutADR(Word Value) {
     }
 }
 
+/* for targets that use the statement without going through DecodeMotoPseudo(), which
+   selects the byte order: least significant byte first */
+
+void DecodeMotoADRLittle(Word Index) {
+    M16Turn = False;
+    DecodeMotoADR(Index);
+}
+
 void DecodeMotoADR(Word Index) {
     UNUSED(Index);
 
